@@ -33,10 +33,16 @@ func encodeInt64(v int64) []byte {
 }
 
 func decodeInt32(data []byte) (int32, error) {
+	if len(data) < 4 {
+		return 0, ErrDataTypeMismatch
+	}
 	return int32(binary.LittleEndian.Uint32(data)), nil
 }
 
 func decodeInt64(data []byte) (int64, error) {
+	if len(data) < 8 {
+		return 0, ErrDataTypeMismatch
+	}
 	return int64(binary.LittleEndian.Uint64(data)), nil
 }
 
